@@ -1,5 +1,6 @@
 import Mutiny.Model.Ring
 import Mutiny.Model.LockRing
+import Mutiny.Model.Handles
 /-! Uniform interface of the executable models for the replay driver. -/
 namespace Driver
 
@@ -90,6 +91,39 @@ def lockRingMachine : Machine LockRing.St where
   describe s t := reprStr (s.thr t) ++ s!" head={s.head} tail={s.tail} locked={s.locked}"
   cmpVal _ := false
 
+/-! ### M3+M5 Handles -/
+open Mutiny in
+def handlesMachine : Machine Handles.St where
+  call s t op args :=
+    let idle := s.thr t == .idle
+    let nat (x : String) := x.toNat!
+    let chk (a : Handles.Act) (ok : Bool) := if idle && ok then some (Handles.apply s a) else none
+    match op, args with
+    | "newarc", [v, k]   => chk (.newArc t (nat v) (nat k)) (nat k > 0)
+    | "clone", [i]       => chk (.clone t (nat i)) (Handles.usable s (nat i))
+    | "increfs", [i, k]  => chk (.incRefs t (nat i) (nat k)) (Handles.usable s (nat i))
+    | "rawcopy", [i]     => chk (.rawCopy t (nat i)) (nat i < s.cbs.length && (Handles.getCB s (nat i)).owed > 0)
+    | "droparc", [i]     => chk (.dropArc t (nat i)) (Handles.usable s (nat i))
+    | "count", [i]       => chk (.count t (nat i)) (Handles.usable s (nat i))
+    | "deref", [i]       => chk (.deref t (nat i)) (Handles.usable s (nat i))
+    | "newunique", [v]   => chk (.newUnique t (nat v)) true
+    | "dropunique", [i]  => chk (.dropUnique t (nat i)) (s.uniques.contains (nat i))
+    | "derefunique", [i] => chk (.derefUnique t (nat i)) (s.uniques.contains (nat i))
+    | "intoarc", [i]     => chk (.intoArc t (nat i)) (s.uniques.contains (nat i))
+    | _, _ => none
+  tag s t := Handles.tagOf (s.thr t)
+  step s t := Handles.step s t
+  result s t := match s.thr t with
+    | .done r => some r.show
+    | _ => none
+  ack s t := Handles.apply s (.ack t)
+  observe s k := match k with
+    | "free" => some (toString s.free.length)
+    | "drops" => some (toString s.dropLog.length)
+    | _ => none
+  describe s t := reprStr (s.thr t) ++ s!" free={s.free} cbs={reprStr s.cbs}"
+  cmpVal tag := tag == "oa.inc"
+
 def lookup (kv : List (String × String)) (k : String) : Option String :=
   (kv.find? (·.1 == k)).map (·.2)
 
@@ -98,6 +132,7 @@ def mkMachine (kv : List (String × String)) : Option AnyMachine :=
   match lookup kv "model" with
   | some "ring" => some { σ := _, m := ringMachine, s := Mutiny.Ring.init n }
   | some "lockring" => some { σ := _, m := lockRingMachine, s := Mutiny.LockRing.init n }
+  | some "handles" => some { σ := _, m := handlesMachine, s := Mutiny.Handles.init n }
   | _ => none
 
 end Driver
